@@ -895,6 +895,13 @@ int cif_container_get_all_loops(cif_container_tp *container, cif_loop_tp ***loop
 
     cif = container->cif;
 
+    /*
+     * Create any needed prepared statements, or prepare the existing one(s)
+     * for re-use, exiting this function with an error on failure.  This must
+     * precede opening the (nested) transaction, which such an exit would leave open.
+     */
+    PREPARE_STMT(cif, get_all_loops, GET_ALL_LOOPS_SQL);
+
     if (BEGIN_NESTTX(cif->db) == SQLITE_OK) {
         int result = cif_container_validate(container);
 
@@ -905,12 +912,6 @@ int cif_container_get_all_loops(cif_container_tp *container, cif_loop_tp ***loop
             } *head = NULL;
             struct loop_el **next_loop_p = &head;
             struct loop_el *next_loop;
-
-            /*
-             * Create any needed prepared statements, or prepare the existing one(s)
-             * for re-use, exiting this function with an error on failure.
-             */
-            PREPARE_STMT(cif, get_all_loops, GET_ALL_LOOPS_SQL);
 
             if (sqlite3_bind_int64(cif->get_all_loops_stmt, 1, container->id) == SQLITE_OK) {
                 STEP_HANDLING;
